@@ -198,14 +198,19 @@ theorem safe_optCombine (inp : Input) (h : wf .optCombine inp = true) : Safe inp
   have hs := shape_of_wf h
   simp only [shapeOk, Bool.and_eq_true] at hs
   obtain ⟨⟨⟨⟨⟨_, h0⟩, h1⟩, _⟩, _⟩, _⟩ := hs
-  exact safe_ite (fun _ => safe_xferAll_fwd h1 (Nat.le_refl _) (destOk_res inp))
-    (fun _ => safe_ite (fun _ => safe_xferAll_fwd h0 (Nat.le_refl _) (destOk_res inp)) (fun _ => safe_read_call h0))
+  refine safe_ite (fun _ => safe_xferAll_fwd h1 (Nat.le_refl _) (destOk_res inp))
+    (fun hn0 => safe_ite (fun _ => safe_xferAll_fwd h0 (Nat.le_refl _) (destOk_res inp)) (fun hn1 => ?_))
+  refine safe_pair (ok_sinkAt (by omega)) (ok_callAt rv_not_lvcr (by omega) (destOk_res inp)) ?_
+  intro b j hk hu
+  have e1 := sinkAt_footprint (Or.inl hk)
+  have e2 := callAt_footprint (Or.inr hu)
+  omega
 
 theorem safe_optApply2 (inp : Input) (h : wf .optApply2 inp = true) : Safe inp (prog .optApply2 inp) := by
   have hs := shape_of_wf h
   simp only [shapeOk, Bool.and_eq_true] at hs
   obtain ⟨⟨⟨⟨⟨_, h0⟩, h1⟩, _⟩, _⟩, _⟩ := hs
-  exact safe_ite (fun _ => safe_nil inp) (fun _ => safe_read_call h0)
+  exact safe_ite (fun _ => safe_nil inp) (fun hn => safe_zipCall2_rv (by omega) (by omega) (destOk_res inp))
 
 theorem safe_optSequence (inp : Input) (h : wf .optSequence inp = true) : Safe inp (prog .optSequence inp) := by
   have hs := shape_of_wf h
@@ -270,9 +275,10 @@ theorem safe_eithJoin (inp : Input) (h : wf .eithJoin inp = true) : Safe inp (pr
 
 theorem safe_eithApply2 (inp : Input) (h : wf .eithApply2 inp = true) : Safe inp (prog .eithApply2 inp) := by
   have hs := shape_of_wf h
-  simp only [shapeOk, Bool.and_eq_true] at hs
-  obtain ⟨⟨⟨⟨⟨⟨_, h0⟩, h1⟩, _⟩, _⟩, _⟩, _⟩ := hs
-  refine safe_ite (fun _ => safe_ite (fun _ => safe_read_call h0) (fun _ => safe_xferAll_fwd h1 (Nat.le_refl _) (destOk_res inp)))
+  simp only [shapeOk, Bool.and_eq_true, beq_iff_eq] at hs
+  obtain ⟨⟨⟨⟨⟨⟨_, h0⟩, h1⟩, hn0⟩, hn1⟩, _⟩, _⟩ := hs
+  refine safe_ite (fun _ => safe_ite (fun _ => safe_zipCall2_rv (by omega) (by omega) (destOk_res inp))
+      (fun _ => safe_xferAll_fwd h1 (Nat.le_refl _) (destOk_res inp)))
     (fun _ => safe_append (safe_xferAll_fwd h0 (Nat.le_refl _) (destOk_res inp))
       (safe_ite (fun _ => safe_nil inp) (fun _ => safe_xferAll_fwd h1 (Nat.le_refl _) (destOk_drop inp))) ?_)
   intro x hx y hy
@@ -313,8 +319,8 @@ theorem safe_var1 (inp : Input) (o : Op) (ho : o = .varMatch ∨ o = .varApply) 
 
 theorem safe_varApply2 (inp : Input) (h : wf .varApply2 inp = true) : Safe inp (prog .varApply2 inp) := by
   have hs := shape_of_wf h
-  simp only [shapeOk, Bool.and_eq_true] at hs
-  exact safe_read_call hs.1.1.1.1.1.2
+  simp only [shapeOk, Bool.and_eq_true, beq_iff_eq] at hs
+  exact safe_zipCall2_rv (by omega) (by omega) (destOk_res inp)
 
 theorem safe_varToOptional (inp : Input) (h : wf .varToOptional inp = true) : Safe inp (prog .varToOptional inp) := by
   have hs := shape_of_wf h
@@ -335,7 +341,7 @@ theorem safe_two (inp : Input) (o : Op)
   have hs := shape_of_wf h
   rcases ho with rfl | rfl | rfl | rfl | rfl <;> simp only [shapeOk, Bool.and_eq_true] at hs
   · exact safe_fwd2 hs.1.1.1.2 hs.1.1.2 (destOk_res inp)
-  · exact safe_fwd2 (anyCat_of_rv hs.1.1.2) (anyCat_of_rv hs.1.2) (destOk_res inp)
+  · exact safe_fwd2 hs.1.1.2 hs.1.2 (destOk_res inp)
   · exact safe_fwd2 hs.1.1.1.2 hs.1.1.2 (destOk_res inp)
   · exact safe_fwd2 hs.1.1.2 hs.1.2 (destOk_res inp)
   · exact safe_fwd2 hs.1.1.2 hs.1.2 (destOk_res inp)
@@ -379,8 +385,12 @@ theorem safe_gridMap (inp : Input) (h : wf .gridMap inp = true) : Safe inp (prog
 
 theorem safe_gridApply2 (inp : Input) (h : wf .gridApply2 inp = true) : Safe inp (prog .gridApply2 inp) := by
   have hs := shape_of_wf h
-  simp only [shapeOk, Bool.and_eq_true] at hs
-  exact safe_ite (fun _ => safe_read_call hs.1.1.1.1.2) (fun _ => safe_nil inp)
+  simp only [shapeOk, Bool.and_eq_true, beq_iff_eq] at hs
+  refine safe_ite (fun hd => safe_zipCall2_rv (Nat.le_refl _) ?_ (destOk_res inp)) (fun _ => safe_nil inp)
+  have e0 := hs.1.2
+  have e1 := hs.2
+  rw [← e0, ← e1, hd.1, hd.2]
+  exact Nat.le_refl _
 
 theorem safe_gridResize (inp : Input) (h : wf .gridResize inp = true) : Safe inp (prog .gridResize inp) := by
   have hs := shape_of_wf h
@@ -428,6 +438,439 @@ theorem safe_parseSequence (inp : Input) (h : wf .parseSequence inp = true) : Sa
 
 theorem safe_parseRepetition (inp : Input) (h : wf .parseRepetition inp = true) : Safe inp (prog .parseRepetition inp) :=
   safe_fresh_range _ _ (destOk_res inp)
+
+/-! ## extension round 1: tuple / array / record, optional / either / variant -/
+
+theorem safe_fwd1 (inp : Input) (o : Op)
+    (ho : o = .tupFromArray ∨ o = .optMake ∨ o = .optCtor ∨ o = .optToException ∨ o = .eithMakeSuccess ∨ o = .eithMakeFailure ∨
+      o = .eithCtor ∨ o = .varCtor ∨ o = .eithErrorFromOptional ∨ o = .optCopyValue)
+    (h : wf o inp = true) : Safe inp (prog o inp) := by
+  have hs := shape_of_wf h
+  rcases ho with rfl | rfl | rfl | rfl | rfl | rfl | rfl | rfl | rfl | rfl <;> simp only [shapeOk, Bool.and_eq_true] at hs
+  · exact safe_xferAll_fwd hs.1.2 (Nat.le_refl _) (destOk_res inp)
+  · exact safe_xferAll_fwd hs.1.1.2 (Nat.le_refl _) (destOk_res inp)
+  · exact safe_xferAll_fwd hs.1.1.2 (Nat.le_refl _) (destOk_res inp)
+  · exact safe_xferAll_fwd hs.1.1.2 (Nat.le_refl _) (destOk_res inp)
+  · exact safe_xferAll_fwd hs.1.1.2 (Nat.le_refl _) (destOk_res inp)
+  · exact safe_xferAll_fwd hs.1.1.2 (Nat.le_refl _) (destOk_res inp)
+  · exact safe_xferAll_fwd hs.1.1.1.2 (Nat.le_refl _) (destOk_res inp)
+  · exact safe_xferAll_fwd hs.1.1.1.2 (Nat.le_refl _) (destOk_res inp)
+  · exact safe_xferAll_fwd hs.1.1.2 (Nat.le_refl _) (destOk_res inp)
+  · exact safe_xferAll_fwd (anyCat_of_lvcr hs.1.1.2) (Nat.le_refl _) (destOk_res inp)
+
+theorem safe_call1 (inp : Input) (o : Op) (ho : o = .tupInvoke ∨ o = .optMaybeVoid ∨ o = .optMaybe ∨ o = .eithToException)
+    (h : wf o inp = true) : Safe inp (prog o inp) := by
+  have hs := shape_of_wf h
+  rcases ho with rfl | rfl | rfl | rfl <;> simp only [shapeOk, Bool.and_eq_true] at hs
+  · exact safe_callAll hs.1.2 (Nat.le_refl _) (destOk_res inp)
+  · exact safe_callAll hs.1.1.2 (Nat.le_refl _) (destOk_res inp)
+  · exact safe_ite (fun _ => safe_fresh_res inp 1000 (by omega)) (fun _ => safe_callAll hs.1.1.2 (Nat.le_refl _) (destOk_res inp))
+  · exact safe_fwd_or_call _ hs.1.1.1.2
+
+theorem safe_zip2 (inp : Input) (o : Op) (ho : o = .tupApply2 ∨ o = .arrApply2) (h : wf o inp = true) : Safe inp (prog o inp) := by
+  have hs := shape_of_wf h
+  rcases ho with rfl | rfl <;> simp only [shapeOk, Bool.and_eq_true, beq_iff_eq] at hs
+  · exact safe_zipCall2 false_not_lvcr false_not_lvcr (Nat.le_refl _) (by omega) (destOk_res inp)
+  · exact safe_zipCall2_rv (Nat.le_refl _) (by omega) (destOk_res inp)
+
+theorem safe_make2 (inp : Input) (o : Op) (ho : o = .tupMake2 ∨ o = .arrMake2 ∨ o = .recCtor2) (h : wf o inp = true) :
+    Safe inp (prog o inp) := by
+  have hs := shape_of_wf h
+  rcases ho with rfl | rfl | rfl <;> simp only [shapeOk, Bool.and_eq_true] at hs
+  · exact safe_fwd2 hs.1.1.1.1.2 hs.1.1.1.2 (destOk_res inp)
+  · exact safe_fwd2 hs.1.1.1.1.2 hs.1.1.1.2 (destOk_res inp)
+  · exact safe_fwd2 hs.1.1.1.1.1.2 hs.1.1.1.1.2 (destOk_res inp)
+
+theorem safe_init (inp : Input) (o : Op) (ho : o = .tupInit ∨ o = .arrInit ∨ o = .recInit ∨ o = .eithLoop) (h : wf o inp = true) :
+    Safe inp (prog o inp) := by
+  rcases ho with rfl | rfl | rfl | rfl <;> exact safe_freshRange _ _ (destOk_res inp)
+
+theorem safe_fresh1 (inp : Input) (o : Op) (ho : o = .optMakeIf ∨ o = .eithConstruct ∨ o = .eithTryCall) (h : wf o inp = true) :
+    Safe inp (prog o inp) := by
+  rcases ho with rfl | rfl | rfl
+  · exact safe_ite (fun _ => safe_fresh_res inp 1000 (by omega)) (fun _ => safe_nil inp)
+  · exact safe_ite (fun _ => safe_fresh_res inp 1000 (by omega)) (fun _ => safe_fresh_res inp 1001 (by omega))
+  · exact safe_ite (fun _ => safe_fresh_res inp 1000 (by omega)) (fun _ => safe_fresh_res inp 1001 (by omega))
+
+theorem safe_optAssign (inp : Input) (h : wf .optAssign inp = true) : Safe inp (prog .optAssign inp) := by
+  have hs := shape_of_wf h
+  simp only [shapeOk, Bool.and_eq_true, beq_iff_eq] at hs
+  obtain ⟨⟨⟨⟨⟨_, h0⟩, h1⟩, _⟩, hn1⟩, _⟩ := hs
+  have hio := not_lvcr_of_in h0 rvio_io
+  have hx : Safe inp [.xfer 1 0 .move (.arg 0)] :=
+    safe_singleton ((ok_xfer_move inp 1 0 (.arg 0)).2 ⟨not_lvcr_of_in h1 rvio_rv, by omega, (destOk_arg inp 0).2 ⟨hio, lt_of_catIn h0⟩⟩)
+  refine safe_append (safe_ite (fun _ => safe_nil inp) (fun hn => safe_singleton ((ok_pop inp 0 0 .drop).2 ⟨hio, by omega, destOk_drop inp⟩))) hx ?_
+  intro x hx' y hy b j hk hu
+  simp only [List.mem_singleton] at hy
+  subst hy
+  split at hx'
+  · exact absurd hx' List.not_mem_nil
+  · simp only [List.mem_singleton] at hx'
+    subst hx'
+    simp [Instr.kills, Instr.uses] at hk hu
+    omega
+
+theorem safe_maybeMulti (inp : Input) (o : Op) (ho : o = .optMaybeMulti2 ∨ o = .optMaybeVoidMulti2) (h : wf o inp = true) :
+    Safe inp (prog o inp) := by
+  have hs := shape_of_wf h
+  rcases ho with rfl | rfl <;> simp only [shapeOk, Bool.and_eq_true] at hs
+  · exact safe_ite (fun _ => safe_fresh_res inp 1000 (by omega)) (fun hn => safe_zipCall2_rv (by omega) (by omega) (destOk_res inp))
+  · exact safe_ite (fun _ => safe_nil inp) (fun hn => safe_zipCall2_rv (by omega) (by omega) (destOk_res inp))
+
+theorem safe_eithSequenceError (inp : Input) (h : wf .eithSequenceError inp = true) : Safe inp (prog .eithSequenceError inp) := by
+  have hs := shape_of_wf h
+  simp only [shapeOk, Bool.and_eq_true, beq_iff_eq] at hs
+  obtain ⟨⟨⟨_, h0⟩, hlen⟩, _⟩ := hs
+  simp only [prog]
+  split
+  · rename_i k hk
+    have hlt : k < inp.par.length := (List.findIdx?_eq_some_iff_findIdx_eq.1 hk).1
+    exact safe_append (safe_readAll (by omega)) (safe_singleton (ok_callAt rv_not_lvcr (by omega) (destOk_res inp)))
+      (cross_of_noKills (noKills_readAll _ _))
+  · exact safe_readAll (Nat.le_refl _)
+
+/-! ## extension round 2: algorithm / container helpers, tree and grid members -/
+
+theorem safe_find (inp : Input) (o : Op) (ho : o = .algFindOpt ∨ o = .algIndexOf ∨ o = .algContains) (h : wf o inp = true) :
+    Safe inp (prog o inp) := by
+  have hs := shape_of_wf h
+  rcases ho with rfl | rfl | rfl <;> simp only [shapeOk, Bool.and_eq_true, beq_iff_eq, decide_eq_true_eq] at hs <;>
+  · obtain ⟨⟨⟨⟨⟨_, _⟩, _⟩, hn1⟩, _⟩, hk⟩ := hs
+    exact safe_ite (fun hlt => safe_readAll (by omega))
+      (fun _ => safe_append (safe_readAll (Nat.le_refl _)) (safe_singleton ((ok_read inp 1 0).2 (by omega)))
+        (cross_of_noKills (noKills_readAll _ _)))
+
+theorem safe_findIf (inp : Input) (h : wf .algFindIfOpt inp = true) : Safe inp (prog .algFindIfOpt inp) :=
+  safe_readAll (Nat.min_le_left _ _)
+
+theorem safe_findBy (inp : Input) (h : wf .algFindByOpt inp = true) : Safe inp (prog .algFindByOpt inp) :=
+  safe_deriveEach (by simp only [List.length_take]; exact Nat.min_le_left _ _) (destOk_res inp)
+
+theorem safe_iter (inp : Input) (o : Op) (ho : o = .algMapIteration ∨ o = .algMapIterationSecond ∨ o = .algSeqIteration)
+    (h : wf o inp = true) : Safe inp (prog o inp) := by
+  have hs := shape_of_wf h
+  rcases ho with rfl | rfl | rfl <;> simp only [shapeOk, Bool.and_eq_true, beq_iff_eq] at hs <;>
+  · exact safe_iterErase (not_lvcr_of_in hs.1.1.2 rvio_io) (by omega)
+
+theorem safe_contInsert (inp : Input) (h : wf .contInsert inp = true) : Safe inp (prog .contInsert inp) := by
+  have hs := shape_of_wf h
+  simp only [shapeOk, Bool.and_eq_true] at hs
+  obtain ⟨⟨⟨⟨⟨_, h0⟩, h1⟩, _⟩, _⟩, _⟩ := hs
+  exact safe_ite (fun _ => safe_nil inp)
+    (fun _ => safe_xferAll_fwd h1 (Nat.le_refl _) ((destOk_arg inp 0).2 ⟨not_lvcr_of_in h0 rvio_io, lt_of_catIn h0⟩))
+
+theorem safe_setOps (inp : Input) (o : Op) (ho : o = .contSetUnion ∨ o = .contSetDifference ∨ o = .contSetIntersection)
+    (h : wf o inp = true) : Safe inp (prog o inp) := by
+  have hs := shape_of_wf h
+  rcases ho with rfl | rfl | rfl <;> simp only [shapeOk, Bool.and_eq_true] at hs <;>
+    obtain ⟨⟨⟨⟨⟨_, h0⟩, h1⟩, _⟩, _⟩, _⟩ := hs <;>
+    have c0 := safe_xferAll_copy (d := .res) (lvcr_of_in h0 lvcr_lvcr) (Nat.le_refl (inp.size 0)) (destOk_res inp) <;>
+    have c1 := safe_xferAll_copy (d := .res) (lvcr_of_in h1 lvcr_lvcr) (Nat.le_refl (inp.size 1)) (destOk_res inp)
+  · exact safe_append c0 (safe_ite (fun _ => safe_nil inp) (fun _ => c1)) (cross_of_noKills (noKills_xferAll_copy _ _ _))
+  · exact safe_ite (fun _ => safe_nil inp) (fun _ => c0)
+  · exact safe_ite (fun _ => c0) (fun _ => safe_nil inp)
+
+theorem safe_mapValuesCopy (inp : Input) (h : wf .contMapValuesCopy inp = true) : Safe inp (prog .contMapValuesCopy inp) := by
+  have hs := shape_of_wf h
+  simp only [shapeOk, Bool.and_eq_true] at hs
+  exact safe_xferAll_copy (lvcr_of_in hs.1.2 lvcr_lvcr) (Nat.le_refl _) (destOk_res inp)
+
+theorem safe_refOps (inp : Input) (o : Op)
+    (ho : o = .contAtOptional ∨ o = .contMaybeBack ∨ o = .contMaybeFront ∨ o = .contFindOptMapped ∨ o = .treeSelfAssign ∨ o = .gridSelfAssign)
+    (h : wf o inp = true) : Safe inp (prog o inp) := by
+  rcases ho with rfl | rfl | rfl | rfl | rfl | rfl <;> exact safe_nil inp
+
+theorem safe_indexMapGet (inp : Input) (h : wf .contIndexMapGet inp = true) : Safe inp (prog .contIndexMapGet inp) := by
+  have hs := shape_of_wf h
+  simp only [shapeOk, Bool.and_eq_true] at hs
+  exact safe_freshRange _ _ ((destOk_arg inp 0).2 ⟨not_lvcr_of_in hs.1.2 rvio_io, lt_of_catIn hs.1.2⟩)
+
+theorem safe_move_steal {inp : Input} (h0 : ¬ IsLvCr (inp.cat 0)) (h1 : ¬ IsLvCr (inp.cat 1)) (hn : 0 < inp.size 0)
+    (hl : 1 < inp.args.length) : Safe inp [.xfer 0 0 .move .res, .steal 1 .res] :=
+  safe_pair ((ok_xfer_move inp 0 0 .res).2 ⟨h0, hn, destOk_res inp⟩) ((ok_steal inp 1 .res).2 ⟨h1, hl, destOk_res inp⟩)
+    (fun b j _ hu => hu)
+
+theorem safe_treeCtorTree (inp : Input) (o : Op) (ho : o = .treeCtorTree ∨ o = .treeCtorChildren) (h : wf o inp = true) :
+    Safe inp (prog o inp) := by
+  have hs := shape_of_wf h
+  rcases ho with rfl | rfl <;> simp only [shapeOk, Bool.and_eq_true, beq_iff_eq] at hs
+  · obtain ⟨⟨⟨⟨⟨_, h0⟩, h1⟩, hcat⟩, hn0⟩, _⟩ := hs
+    have hrv : inp.isRv 0 = inp.isRv 1 := by simp [Input.isRv, hcat]
+    simp only [prog]
+    cases hr : inp.isRv 0
+    · simp only [Bool.false_eq_true, if_false]
+      have hl0 := lvcr_of_any h0 hr
+      have hl1 := lvcr_of_any h1 (hrv ▸ hr)
+      exact safe_cons ((ok_xfer_copy inp 0 0 .res).2 ⟨hl0, by omega, destOk_res inp⟩)
+        (safe_xferAll_copy hl1 (Nat.le_refl _) (destOk_res inp)) (fun y _ b j hk _ => hk)
+    · simp only [if_true]
+      exact safe_move_steal (not_lvcr_of_rv hr) (not_lvcr_of_rv (hrv ▸ hr)) (by omega) (lt_of_catIn h1)
+  · obtain ⟨⟨⟨⟨_, h0⟩, h1⟩, hn0⟩, _⟩ := hs
+    have hr : inp.isRv 0 = true := by
+      obtain ⟨c, hc, hm⟩ := (catIn_iff inp 0 _).1 h0
+      simp at hm; subst hm
+      exact (isRv_iff inp 0).2 hc
+    simp only [prog, hr, if_true]
+    exact safe_move_steal (not_lvcr_of_in h0 rvio_rv) (not_lvcr_of_in h1 rvio_rv) (by omega) (lt_of_catIn h1)
+
+theorem safe_treeAssign (inp : Input) (h : wf .treeAssign inp = true) : Safe inp (prog .treeAssign inp) := by
+  have hs := shape_of_wf h
+  simp only [shapeOk, Bool.and_eq_true, beq_iff_eq] at hs
+  obtain ⟨⟨⟨⟨⟨⟨⟨⟨_, h0⟩, h1⟩, h2⟩, h3⟩, hcat⟩, hn0⟩, hn2⟩, _⟩ := hs
+  have hrv : inp.isRv 2 = inp.isRv 3 := by simp [Input.isRv, hcat]
+  have hio0 := not_lvcr_of_in h0 rvio_io
+  have hio1 := not_lvcr_of_in h1 rvio_io
+  have d0 : DestOk inp (.arg 0) := (destOk_arg inp 0).2 ⟨hio0, lt_of_catIn h0⟩
+  have d1 : DestOk inp (.arg 1) := (destOk_arg inp 1).2 ⟨hio1, lt_of_catIn h1⟩
+  have hx : Ok inp (.xfer 2 0 (fwd (inp.isRv 2)) (.arg 0)) := by
+    cases hr : inp.isRv 2
+    · exact (ok_xfer_copy inp 2 0 _).2 ⟨lvcr_of_any h2 hr, by omega, d0⟩
+    · exact (ok_xfer_move inp 2 0 _).2 ⟨not_lvcr_of_rv hr, by omega, d0⟩
+  have htail : Safe inp (if inp.isRv 2 = true then [Instr.steal 3 (.arg 1)] else xferAll 3 (inp.size 3) .copy (.arg 1)) := by
+    cases hr : inp.isRv 2
+    · simp only [Bool.false_eq_true, if_false]
+      exact safe_xferAll_copy (lvcr_of_any h3 (hrv ▸ hr)) (Nat.le_refl _) d1
+    · simp only [if_true]
+      exact safe_singleton ((ok_steal inp 3 _).2 ⟨not_lvcr_of_rv (hrv ▸ hr), lt_of_catIn h3, d1⟩)
+  have htail3 : OnArg 3 (if inp.isRv 2 = true then [Instr.steal 3 (.arg 1)] else xferAll 3 (inp.size 3) .copy (.arg 1)) := by
+    split
+    · exact onArg_singleton (fun b j hb => by simp [Instr.kills, Instr.uses] at hb; omega)
+    · exact onArg_xferAll _ _ _ _
+  have hhead : Safe inp [.pop 0 0 .drop, .xfer 2 0 (fwd (inp.isRv 2)) (.arg 0), .steal 1 .drop] := by
+    refine safe_cons ((ok_pop inp 0 0 .drop).2 ⟨hio0, by omega, destOk_drop inp⟩)
+      (safe_pair hx ((ok_steal inp 1 .drop).2 ⟨hio1, lt_of_catIn h1, destOk_drop inp⟩) (fun b j _ hu => hu)) ?_
+    intro y hy b j hk hu
+    simp only [List.mem_cons, List.not_mem_nil, or_false] at hy
+    rcases hy with rfl | rfl
+    · cases inp.isRv 2 <;> simp [fwd, Instr.kills, Instr.uses] at hk hu <;> omega
+    · exact hu
+  refine safe_append hhead htail ?_
+  intro x hx' y hy b j hk hu
+  have hb3 := htail3 y hy b j (Or.inr hu)
+  simp only [List.mem_cons, List.not_mem_nil, or_false] at hx'
+  rcases hx' with rfl | rfl | rfl
+  · simp [Instr.kills] at hk; omega
+  · cases hr2 : inp.isRv 2
+    · rw [hr2] at hk; exact hk
+    · rw [hr2] at hk
+      have := hk.1
+      omega
+  · simp [Instr.kills] at hk; omega
+
+theorem safe_treeSetValue (inp : Input) (h : wf .treeSetValue inp = true) : Safe inp (prog .treeSetValue inp) := by
+  have hs := shape_of_wf h
+  simp only [shapeOk, Bool.and_eq_true, beq_iff_eq] at hs
+  obtain ⟨⟨⟨⟨⟨_, h0⟩, h1⟩, hn0⟩, hn1⟩, _⟩ := hs
+  have hio0 := not_lvcr_of_in h0 rvio_io
+  have d0 : DestOk inp (.arg 0) := (destOk_arg inp 0).2 ⟨hio0, lt_of_catIn h0⟩
+  have hx : Ok inp (.xfer 1 0 (fwd (inp.isRv 1)) (.arg 0)) := by
+    cases hr : inp.isRv 1
+    · exact (ok_xfer_copy inp 1 0 _).2 ⟨lvcr_of_any h1 hr, by omega, d0⟩
+    · exact (ok_xfer_move inp 1 0 _).2 ⟨not_lvcr_of_rv hr, by omega, d0⟩
+  refine safe_pair ((ok_pop inp 0 0 .drop).2 ⟨hio0, by omega, destOk_drop inp⟩) hx ?_
+  intro b j hk hu
+  cases inp.isRv 1 <;> simp [fwd, Instr.kills, Instr.uses] at hk hu <;> omega
+
+theorem safe_treePush2 (inp : Input) (o : Op)
+    (ho : o = .treePushFrontValue ∨ o = .treeInsertValue ∨ o = .treePushFrontTree ∨ o = .treeInsertTree) (h : wf o inp = true) :
+    Safe inp (prog o inp) := by
+  have hs := shape_of_wf h
+  rcases ho with rfl | rfl | rfl | rfl <;> simp only [shapeOk, Bool.and_eq_true] at hs
+  · obtain ⟨⟨⟨⟨⟨_, h0⟩, h1⟩, _⟩, _⟩, _⟩ := hs
+    exact safe_xferAll_fwd h1 (Nat.le_refl _) ((destOk_arg inp 0).2 ⟨not_lvcr_of_in h0 rvio_io, lt_of_catIn h0⟩)
+  · obtain ⟨⟨⟨⟨⟨⟨_, h0⟩, h1⟩, _⟩, _⟩, _⟩, _⟩ := hs
+    exact safe_xferAll_fwd h1 (Nat.le_refl _) ((destOk_arg inp 0).2 ⟨not_lvcr_of_in h0 rvio_io, lt_of_catIn h0⟩)
+  · obtain ⟨⟨⟨⟨⟨_, h0⟩, h1⟩, _⟩, _⟩, _⟩ := hs
+    exact safe_xferAll_fwd (anyCat_of_rv h1) (Nat.le_refl _) ((destOk_arg inp 0).2 ⟨not_lvcr_of_in h0 rvio_io, lt_of_catIn h0⟩)
+  · obtain ⟨⟨⟨⟨⟨⟨_, h0⟩, h1⟩, _⟩, _⟩, _⟩, _⟩ := hs
+    exact safe_xferAll_fwd (anyCat_of_rv h1) (Nat.le_refl _) ((destOk_arg inp 0).2 ⟨not_lvcr_of_in h0 rvio_io, lt_of_catIn h0⟩)
+
+theorem safe_treePop (inp : Input) (o : Op) (ho : o = .treePopBack ∨ o = .treePopFront) (h : wf o inp = true) :
+    Safe inp (prog o inp) := by
+  have hs := shape_of_wf h
+  rcases ho with rfl | rfl <;> simp only [shapeOk, Bool.and_eq_true] at hs <;>
+  · have h0 := hs.1.1.2
+    exact safe_ite (fun _ => safe_nil inp)
+      (fun hn => safe_singleton ((ok_pop inp 0 _ .res).2 ⟨not_lvcr_of_in h0 rvio_io, by omega, destOk_res inp⟩))
+
+theorem safe_treeEraseOps (inp : Input) (o : Op) (ho : o = .treeErase ∨ o = .treeEraseRange ∨ o = .treeClear) (h : wf o inp = true) :
+    Safe inp (prog o inp) := by
+  have hs := shape_of_wf h
+  rcases ho with rfl | rfl | rfl <;> simp only [shapeOk, Bool.and_eq_true, decide_eq_true_eq] at hs
+  · exact safe_eraseRange (not_lvcr_of_in hs.1.1.2 rvio_io) (by omega)
+  · exact safe_eraseRange (not_lvcr_of_in hs.1.1.1.2 rvio_io) (by omega)
+  · exact safe_eraseRange (not_lvcr_of_in hs.1.1.2 rvio_io) (Nat.le_refl _)
+
+theorem safe_treeSort (inp : Input) (h : wf .treeSort inp = true) : Safe inp (prog .treeSort inp) :=
+  safe_readAll (Nat.le_refl _)
+
+theorem safe_gridCtors (inp : Input) (o : Op) (ho : o = .gridCtorFn ∨ o = .algGenerateN) (h : wf o inp = true) :
+    Safe inp (prog o inp) := by
+  rcases ho with rfl | rfl <;> exact safe_freshRange _ _ (destOk_res inp)
+
+theorem safe_gridCtorValue (inp : Input) (h : wf .gridCtorValue inp = true) : Safe inp (prog .gridCtorValue inp) := by
+  have hs := shape_of_wf h
+  simp only [shapeOk, Bool.and_eq_true, beq_iff_eq] at hs
+  exact safe_copies (lvcr_of_in hs.1.1.2 lvcr_cr) (by omega)
+
+theorem safe_gridRows (inp : Input) (o : Op) (ho : o = .gridCtorRows2 ∨ o = .gridStaticRow2) (h : wf o inp = true) :
+    Safe inp (prog o inp) := by
+  have hs := shape_of_wf h
+  rcases ho with rfl | rfl <;> simp only [shapeOk, Bool.and_eq_true] at hs
+  · exact safe_fwd2 (anyCat_of_rv hs.1.1.1.1.2) (anyCat_of_rv hs.1.1.1.2) (destOk_res inp)
+  · exact safe_fwd2 hs.1.1.1.1.2 hs.1.1.1.2 (destOk_res inp)
+
+theorem safe_gridCtorGrid (inp : Input) (h : wf .gridCtorGrid inp = true) : Safe inp (prog .gridCtorGrid inp) := by
+  have hs := shape_of_wf h
+  simp only [shapeOk, Bool.and_eq_true] at hs
+  exact safe_whole hs.1.1.2 (destOk_res inp)
+
+theorem safe_gridAssign (inp : Input) (h : wf .gridAssign inp = true) : Safe inp (prog .gridAssign inp) := by
+  have hs := shape_of_wf h
+  simp only [shapeOk, Bool.and_eq_true] at hs
+  obtain ⟨⟨⟨_, h0⟩, h1⟩, _⟩ := hs
+  have hio0 := not_lvcr_of_in h0 rvio_io
+  have d0 : DestOk inp (.arg 0) := (destOk_arg inp 0).2 ⟨hio0, lt_of_catIn h0⟩
+  have htail : Safe inp (if inp.isRv 1 = true then [Instr.steal 1 (.arg 0)] else xferAll 1 (inp.size 1) .copy (.arg 0)) := by
+    cases hr : inp.isRv 1
+    · simp only [Bool.false_eq_true, if_false]
+      exact safe_xferAll_copy (lvcr_of_any h1 hr) (Nat.le_refl _) d0
+    · simp only [if_true]
+      exact safe_singleton ((ok_steal inp 1 _).2 ⟨not_lvcr_of_rv hr, lt_of_catIn h1, d0⟩)
+  have htail1 : OnArg 1 (if inp.isRv 1 = true then [Instr.steal 1 (.arg 0)] else xferAll 1 (inp.size 1) .copy (.arg 0)) := by
+    split
+    · exact onArg_singleton (fun b j hb => by simp [Instr.kills, Instr.uses] at hb; omega)
+    · exact onArg_xferAll _ _ _ _
+  refine safe_cons ((ok_steal inp 0 .drop).2 ⟨hio0, lt_of_catIn h0, destOk_drop inp⟩) htail ?_
+  intro y hy b j hk hu
+  have := htail1 y hy b j (Or.inr hu)
+  simp [Instr.kills] at hk
+  omega
+
+theorem safe_gridFill (inp : Input) (h : wf .gridFill inp = true) : Safe inp (prog .gridFill inp) := by
+  have hs := shape_of_wf h
+  simp only [shapeOk, Bool.and_eq_true] at hs
+  exact safe_fillAll (not_lvcr_of_in hs.1.2 rvio_io) (lt_of_catIn hs.1.2) (Nat.le_refl _)
+
+/-! ## extension round 3: parse / options results -/
+
+theorem safe_results (inp : Input) (o : Op)
+    (ho : o = .parseOpt ∨ o = .parseConvert ∨ o = .optsArgument ∨ o = .optsOptional ∨ o = .parseAlt ∨ o = .optsSum)
+    (h : wf o inp = true) : Safe inp (prog o inp) := by
+  rcases ho with rfl | rfl | rfl | rfl | rfl | rfl
+  · exact safe_ite (fun _ => safe_fresh_res inp 1000 (by omega)) (fun _ => safe_nil inp)
+  · exact safe_ite (fun _ => safe_fresh_res inp 1000 (by omega)) (fun _ => safe_nil inp)
+  · exact safe_ite (fun _ => safe_fresh_res inp 1000 (by omega)) (fun _ => safe_nil inp)
+  · exact safe_ite (fun _ => safe_fresh_res inp 1000 (by omega)) (fun _ => safe_nil inp)
+  · exact safe_ite (fun _ => safe_fresh_res inp 1000 (by omega)) (fun _ => safe_nil inp)
+  · exact safe_ite
+      (fun _ => safe_pair ((ok_fresh inp _ .res).2 ⟨by omega, destOk_res inp⟩) ((ok_fresh inp _ .res).2 ⟨by omega, destOk_res inp⟩)
+        (fun b j hk _ => hk))
+      (fun _ => safe_pair ((ok_fresh inp _ .drop).2 ⟨by omega, destOk_drop inp⟩) ((ok_fresh inp _ .res).2 ⟨by omega, destOk_res inp⟩)
+        (fun b j hk _ => hk))
+
+theorem safe_results2 (inp : Input) (o : Op) (ho : o = .parseAsStruct ∨ o = .optsProduct) (h : wf o inp = true) :
+    Safe inp (prog o inp) := by
+  rcases ho with rfl | rfl <;>
+  · refine safe_ite (fun _ => ?_) (fun _ => safe_ite (fun _ => ?_) (fun _ => safe_nil inp))
+    · exact safe_cons ((ok_fresh inp _ .res).2 ⟨by omega, destOk_res inp⟩) (safe_fresh_res inp 1001 (by omega))
+        (fun y _ b j hk _ => hk)
+    · exact safe_singleton ((ok_fresh inp _ .drop).2 ⟨by omega, destOk_drop inp⟩)
+
+theorem safe_resultsN (inp : Input) (o : Op) (ho : o = .parseSeparator ∨ o = .parseList ∨ o = .parseRepPlus ∨ o = .optsMany)
+    (h : wf o inp = true) : Safe inp (prog o inp) := by
+  rcases ho with rfl | rfl | rfl | rfl <;> exact safe_freshRange _ _ (destOk_res inp)
+
+/-! ## extension round 4 -/
+
+theorem rvio_io4 {inp : Input} {a : Nat} (h : catIn inp a [.io] = true) : ¬ IsLvCr (inp.cat a) ∧ a < inp.args.length :=
+  ⟨not_lvcr_of_in h rvio_io, lt_of_catIn h⟩
+
+theorem safe_treeSwap (inp : Input) (h : wf .treeSwap inp = true) : Safe inp (prog .treeSwap inp) := by
+  have hs := shape_of_wf h
+  simp only [shapeOk, Bool.and_eq_true, beq_iff_eq] at hs
+  obtain ⟨⟨⟨⟨⟨⟨⟨_, h0⟩, h1⟩, h2⟩, h3⟩, hn0⟩, _⟩, _⟩ := hs
+  obtain ⟨c0, _⟩ := rvio_io4 h0
+  obtain ⟨c1, l1⟩ := rvio_io4 h1
+  obtain ⟨c2, l2⟩ := rvio_io4 h2
+  obtain ⟨c3, l3⟩ := rvio_io4 h3
+  refine ⟨?_, ?_⟩
+  · intro x hx
+    simp only [prog, List.mem_cons, List.not_mem_nil, or_false] at hx
+    rcases hx with rfl | rfl | rfl | rfl
+    · exact (ok_swap inp 0 0 1).2 ⟨c0, by omega, by omega⟩
+    · exact (ok_steal inp 1 _).2 ⟨c1, l1, (destOk_arg inp 3).2 ⟨c3, l3⟩⟩
+    · exact (ok_steal inp 2 _).2 ⟨c2, l2, (destOk_arg inp 1).2 ⟨c1, l1⟩⟩
+    · exact (ok_steal inp 3 _).2 ⟨c3, l3, (destOk_arg inp 2).2 ⟨c2, l2⟩⟩
+  · simp only [prog]
+    refine (clean_cons _ _).2 ⟨fun y _ b j hk _ => hk, (clean_cons _ _).2 ⟨?_, (clean_cons _ _).2 ⟨?_, clean_singleton _⟩⟩⟩
+    · intro y hy b j _ hu
+      simp only [List.mem_cons, List.not_mem_nil, or_false] at hy
+      rcases hy with rfl | rfl <;> exact hu
+    · intro y hy b j _ hu
+      simp only [List.mem_singleton] at hy
+      subst hy; exact hu
+
+theorem safe_selfOps (inp : Input) (o : Op) (ho : o = .joinSelf ∨ o = .arrJoinSelf ∨ o = .tupConcatSelf) (h : wf o inp = true) :
+    Safe inp (prog o inp) := by
+  have hs := shape_of_wf h
+  rcases ho with rfl | rfl | rfl <;> simp only [shapeOk, Bool.and_eq_true] at hs <;>
+  · have c := safe_xferAll_copy (d := .res) (lvcr_of_in hs.1.2 lvcr_lvcr) (Nat.le_refl (inp.size 0)) (destOk_res inp)
+    exact safe_append c c (cross_of_noKills (noKills_xferAll_copy _ _ _))
+
+theorem safe_optCombineSelf (inp : Input) (h : wf .optCombineSelf inp = true) : Safe inp (prog .optCombineSelf inp) := by
+  refine safe_ite (fun _ => safe_nil inp) (fun hn => ?_)
+  exact safe_pair ((ok_read inp 0 0).2 (by omega)) ((ok_derive inp 0 0 1 .res).2 ⟨by omega, destOk_res inp⟩) (fun b j hk _ => hk)
+
+theorem safe_map2 (inp : Input) (o : Op) (ho : o = .algMapList ∨ o = .algMapArr ∨ o = .algMapTup) (h : wf o inp = true) :
+    Safe inp (prog o inp) := by
+  have hs := shape_of_wf h
+  rcases ho with rfl | rfl | rfl <;> simp only [shapeOk, Bool.and_eq_true] at hs <;>
+  · exact safe_callAll hs.1.2 (Nat.le_refl _) (destOk_res inp)
+
+theorem safe_readOps (inp : Input) (o : Op) (ho : o = .treeSortPred ∨ o = .algLoopBreakTuple) (h : wf o inp = true) :
+    Safe inp (prog o inp) := by
+  rcases ho with rfl | rfl
+  · exact safe_readAll (Nat.le_refl _)
+  · exact safe_readAll (Nat.min_le_left _ _)
+
+theorem safe_recSet (inp : Input) (h : wf .recSet inp = true) : Safe inp (prog .recSet inp) := by
+  have hs := shape_of_wf h
+  simp only [shapeOk, Bool.and_eq_true, beq_iff_eq, decide_eq_true_eq] at hs
+  obtain ⟨⟨⟨⟨⟨_, h0⟩, h1⟩, hn1⟩, _⟩, hj⟩ := hs
+  obtain ⟨c0, l0⟩ := rvio_io4 h0
+  have d0 : DestOk inp (.arg 0) := (destOk_arg inp 0).2 ⟨c0, l0⟩
+  have hx : Ok inp (.xfer 1 0 (fwd (inp.isRv 1)) (.arg 0)) := by
+    cases hr : inp.isRv 1
+    · exact (ok_xfer_copy inp 1 0 _).2 ⟨lvcr_of_any h1 hr, by omega, d0⟩
+    · exact (ok_xfer_move inp 1 0 _).2 ⟨not_lvcr_of_rv hr, by omega, d0⟩
+  refine safe_pair ((ok_pop inp 0 _ .drop).2 ⟨c0, hj, destOk_drop inp⟩) hx ?_
+  intro b j hk hu
+  cases inp.isRv 1 <;> simp [fwd, Instr.kills, Instr.uses] at hk hu <;> omega
+
+/-! ## extension round 5: remove / unique -/
+
+theorem safe_compactOps (inp : Input) (o : Op) (ho : o = .algRemoveIf ∨ o = .algUniqueIf) (h : wf o inp = true) :
+    Safe inp (prog o inp) := by
+  have hs := shape_of_wf h
+  rcases ho with rfl | rfl <;> simp only [shapeOk, Bool.and_eq_true, beq_iff_eq] at hs
+  · exact safe_compact (not_lvcr_of_in hs.1.1.2 rvio_io) (by omega)
+  · exact safe_compact (not_lvcr_of_in hs.1.1.1.2 rvio_io) (by omega)
+
+theorem safe_seqIterVec (inp : Input) (h : wf .algSeqIterationVec inp = true) : Safe inp (prog .algSeqIterationVec inp) := by
+  have hs := shape_of_wf h
+  simp only [shapeOk, Bool.and_eq_true, beq_iff_eq] at hs
+  exact safe_iterEraseVec (not_lvcr_of_in hs.1.1.2 rvio_io) (by omega)
+
+theorem safe_algRemove (inp : Input) (h : wf .algRemove inp = true) : Safe inp (prog .algRemove inp) := by
+  have hs := shape_of_wf h
+  simp only [shapeOk, Bool.and_eq_true, beq_iff_eq] at hs
+  obtain ⟨⟨⟨⟨_, h0⟩, h1⟩, hn1⟩, _⟩ := hs
+  exact safe_cons ((ok_xfer_copy inp 1 0 .drop).2 ⟨lvcr_of_in h1 lvcr_cr, by omega, destOk_drop inp⟩) (safe_readAll (Nat.le_refl _))
+    (fun y _ b j hk _ => hk)
+
+theorem safe_algUnique (inp : Input) (h : wf .algUnique inp = true) : Safe inp (prog .algUnique inp) :=
+  safe_readAll (Nat.le_refl _)
 
 /-- **every registered operation's program is safe**, for arguments of every size -/
 theorem prog_safe (o : Op) (inp : Input) (h : wf o inp = true) : Safe inp (prog o inp) := by
@@ -498,5 +941,105 @@ theorem prog_safe (o : Op) (inp : Input) (h : wf o inp = true) : Safe inp (prog 
   | optsOption => exact safe_optsOption inp h
   | parseSequence => exact safe_parseSequence inp h
   | parseRepetition => exact safe_parseRepetition inp h
+  | tupFromArray => exact safe_fwd1 inp _ (by simp) h
+  | optMake => exact safe_fwd1 inp _ (by simp) h
+  | optCtor => exact safe_fwd1 inp _ (by simp) h
+  | optToException => exact safe_fwd1 inp _ (by simp) h
+  | eithMakeSuccess => exact safe_fwd1 inp _ (by simp) h
+  | eithMakeFailure => exact safe_fwd1 inp _ (by simp) h
+  | eithCtor => exact safe_fwd1 inp _ (by simp) h
+  | varCtor => exact safe_fwd1 inp _ (by simp) h
+  | eithErrorFromOptional => exact safe_fwd1 inp _ (by simp) h
+  | optCopyValue => exact safe_fwd1 inp _ (by simp) h
+  | tupInvoke => exact safe_call1 inp _ (by simp) h
+  | optMaybeVoid => exact safe_call1 inp _ (by simp) h
+  | optMaybe => exact safe_call1 inp _ (by simp) h
+  | eithToException => exact safe_call1 inp _ (by simp) h
+  | tupApply2 => exact safe_zip2 inp _ (by simp) h
+  | arrApply2 => exact safe_zip2 inp _ (by simp) h
+  | tupMake2 => exact safe_make2 inp _ (by simp) h
+  | arrMake2 => exact safe_make2 inp _ (by simp) h
+  | recCtor2 => exact safe_make2 inp _ (by simp) h
+  | tupInit => exact safe_init inp _ (by simp) h
+  | arrInit => exact safe_init inp _ (by simp) h
+  | recInit => exact safe_init inp _ (by simp) h
+  | eithLoop => exact safe_init inp _ (by simp) h
+  | optMakeIf => exact safe_fresh1 inp _ (by simp) h
+  | eithConstruct => exact safe_fresh1 inp _ (by simp) h
+  | eithTryCall => exact safe_fresh1 inp _ (by simp) h
+  | optAssign => exact safe_optAssign inp h
+  | optMaybeMulti2 => exact safe_maybeMulti inp _ (by simp) h
+  | optMaybeVoidMulti2 => exact safe_maybeMulti inp _ (by simp) h
+  | eithSequenceError => exact safe_eithSequenceError inp h
+  | algFindOpt => exact safe_find inp _ (by simp) h
+  | algIndexOf => exact safe_find inp _ (by simp) h
+  | algContains => exact safe_find inp _ (by simp) h
+  | algFindIfOpt => exact safe_findIf inp h
+  | algFindByOpt => exact safe_findBy inp h
+  | algGenerateN => exact safe_gridCtors inp _ (by simp) h
+  | algMapIteration => exact safe_iter inp _ (by simp) h
+  | algMapIterationSecond => exact safe_iter inp _ (by simp) h
+  | algSeqIteration => exact safe_iter inp _ (by simp) h
+  | contInsert => exact safe_contInsert inp h
+  | contSetUnion => exact safe_setOps inp _ (by simp) h
+  | contSetDifference => exact safe_setOps inp _ (by simp) h
+  | contSetIntersection => exact safe_setOps inp _ (by simp) h
+  | contMapValuesCopy => exact safe_mapValuesCopy inp h
+  | contAtOptional => exact safe_refOps inp _ (by simp) h
+  | contMaybeBack => exact safe_refOps inp _ (by simp) h
+  | contMaybeFront => exact safe_refOps inp _ (by simp) h
+  | contFindOptMapped => exact safe_refOps inp _ (by simp) h
+  | treeSelfAssign => exact safe_refOps inp _ (by simp) h
+  | gridSelfAssign => exact safe_refOps inp _ (by simp) h
+  | contIndexMapGet => exact safe_indexMapGet inp h
+  | treeCtorTree => exact safe_treeCtorTree inp _ (by simp) h
+  | treeCtorChildren => exact safe_treeCtorTree inp _ (by simp) h
+  | treeAssign => exact safe_treeAssign inp h
+  | treeSetValue => exact safe_treeSetValue inp h
+  | treePushFrontValue => exact safe_treePush2 inp _ (by simp) h
+  | treeInsertValue => exact safe_treePush2 inp _ (by simp) h
+  | treePushFrontTree => exact safe_treePush2 inp _ (by simp) h
+  | treeInsertTree => exact safe_treePush2 inp _ (by simp) h
+  | treePopBack => exact safe_treePop inp _ (by simp) h
+  | treePopFront => exact safe_treePop inp _ (by simp) h
+  | treeErase => exact safe_treeEraseOps inp _ (by simp) h
+  | treeEraseRange => exact safe_treeEraseOps inp _ (by simp) h
+  | treeClear => exact safe_treeEraseOps inp _ (by simp) h
+  | treeSort => exact safe_treeSort inp h
+  | gridCtorFn => exact safe_gridCtors inp _ (by simp) h
+  | gridCtorValue => exact safe_gridCtorValue inp h
+  | gridCtorRows2 => exact safe_gridRows inp _ (by simp) h
+  | gridStaticRow2 => exact safe_gridRows inp _ (by simp) h
+  | gridCtorGrid => exact safe_gridCtorGrid inp h
+  | gridAssign => exact safe_gridAssign inp h
+  | gridFill => exact safe_gridFill inp h
+  | parseOpt => exact safe_results inp _ (by simp) h
+  | parseConvert => exact safe_results inp _ (by simp) h
+  | optsArgument => exact safe_results inp _ (by simp) h
+  | optsOptional => exact safe_results inp _ (by simp) h
+  | parseAlt => exact safe_results inp _ (by simp) h
+  | optsSum => exact safe_results inp _ (by simp) h
+  | parseAsStruct => exact safe_results2 inp _ (by simp) h
+  | optsProduct => exact safe_results2 inp _ (by simp) h
+  | parseSeparator => exact safe_resultsN inp _ (by simp) h
+  | parseList => exact safe_resultsN inp _ (by simp) h
+  | parseRepPlus => exact safe_resultsN inp _ (by simp) h
+  | optsMany => exact safe_resultsN inp _ (by simp) h
+  | treeSwap => exact safe_treeSwap inp h
+  | treeSortPred => exact safe_readOps inp _ (by simp) h
+  | algLoopBreakTuple => exact safe_readOps inp _ (by simp) h
+  | joinSelf => exact safe_selfOps inp _ (by simp) h
+  | arrJoinSelf => exact safe_selfOps inp _ (by simp) h
+  | tupConcatSelf => exact safe_selfOps inp _ (by simp) h
+  | optCombineSelf => exact safe_optCombineSelf inp h
+  | algMapList => exact safe_map2 inp _ (by simp) h
+  | algMapArr => exact safe_map2 inp _ (by simp) h
+  | algMapTup => exact safe_map2 inp _ (by simp) h
+  | recSet => exact safe_recSet inp h
+  | algRemoveIf => exact safe_compactOps inp _ (by simp) h
+  | algUniqueIf => exact safe_compactOps inp _ (by simp) h
+  | algRemove => exact safe_algRemove inp h
+  | algUnique => exact safe_algUnique inp h
+  | algSeqIterationVec => exact safe_seqIterVec inp h
 
 end Fcppt.C05
